@@ -823,6 +823,37 @@ def run_summary_classes(block, ctx):
 
     cls = block["cls"]
     dims = {"SphericalDroplet": (1, 2, 3), "DiffuseDroplet": (1, 2, 3), "PerturbedDroplet2D": (2,)}.get(cls, (3,))
+    if cls.startswith("Perturbed"):
+        # consistency requested: a member with another NUMBER OF MODES has another data layout and must be rejected - also after
+        # members with the right layout were accepted (every order of the three requests)
+        from droplets import droplets as dm
+
+        K = getattr(dm, cls)
+        pos = np.zeros(dims[0])
+        mk = lambda n: K(pos + (np.array([0.0, 0.0, float(n)]) if cls == "PerturbedDroplet3DAxisSym" else float(n)), 1.0, 0.1, [0.1] * n)
+        for first_n, other_n in ((2, 4), (4, 2), (1, 3), (3, 2)):
+            for accepted_before in (0, 1, 2):
+                case = {"explorer": "summary-classes", "cls": cls, "reject": [first_n, other_n, accepted_before]}
+                ctx.begin(case)
+                tags = {"explorer": "summary-classes", "cls": cls, "op": "appendF-other-mode-count"}
+                E = Emulsion([mk(first_n)])
+                for _ in range(accepted_before):
+                    E.append(mk(first_n), force_consistency=True)
+                before = [val(d) for d in E]
+                try:
+                    E.append(mk(other_n), force_consistency=True)
+                    raised = False
+                except Exception:  # noqa
+                    raised = True
+                ctx.op(accepted_before + 1)
+                ctx.check("C20.reject", raised and [val(d) for d in E] == before, {"raised": raised, "members": len(E), "modes": [first_n, other_n], "accepted_before": accepted_before}, tags)
+                try:
+                    E2 = Emulsion([mk(first_n)])
+                    E2.extend([mk(first_n), mk(other_n)], force_consistency=True)
+                    raised = False
+                except Exception:  # noqa
+                    raised = True
+                ctx.check("C20.reject", raised, {"what": "extend", "modes": [first_n, other_n]}, tags)
     for dim in dims:
         for rname, radii in SUMMARY_RADII.items():
             for n in (0, 1, 2, 4):
